@@ -270,6 +270,17 @@ var c17Apply = hx.Define("c17.apply", func(c *c17Case, s *hx.Sub) *hx.Violation 
 			s.Unspec() // an intermediate value is not exactly representable
 			return nil
 		}
+		if st.B != nil && st.Filter != "divided_by" {
+			// "exact whenever operands and result are exactly representable as 64-bit floats": an argument that
+			// is not (2^64-1 as a uint64) leaves the result open - except for the integer division, whose
+			// quotient is only asked to lie within 1 of the exact one
+			if r, ok, _ := st.B.rat(false); ok {
+				if _, exact := exactF64(r); !exact {
+					s.Unspec()
+					return nil
+				}
+			}
+		}
 		last = c17Model(st.Filter, cur, st.B)
 		if last.unspecified {
 			s.Unspec()
